@@ -253,6 +253,11 @@ def _check(steps):
     m = _compare(db2, model, "after the final reopen")
     if m:
         return m
+    nxt = "exon_%d" % (model.counters.get("exon", 0) + 1)
+    if nxt in model.ids() and STRATEGY in ("replace", "warning", "error"):
+        # the next generated key coincides with an id the USER supplied explicitly (ID=exon_1): that is a key
+        # collision of the input, resolved as merge_strategy says (C05), not a recycled generated key
+        return None
     probe = Feature(seqid="c", source="upd", featuretype="exon", start=40, end=41, strand="+", attributes={"note": ["p"]},
                     dialect=constants.dialect)
     try:
